@@ -233,6 +233,16 @@ func (w *World) newOp(kind string) *Op {
 	return op
 }
 
+// newOpLocked creates an operation on a goroutine other than the driver (real
+// client audit): no tape draw; the replica follows from the id. Caller holds w.mu.
+func (w *World) newOpLocked(kind string) *Op {
+	op := &Op{ID: len(w.ops), Kind: kind, Method: "GET"}
+	op.Replica = op.ID % len(w.reps)
+	op.Party = fmt.Sprintf("op%03d", op.ID)
+	w.ops = append(w.ops, op)
+	return op
+}
+
 func q(kv ...string) string {
 	v := url.Values{}
 	for i := 0; i+1 < len(kv); i += 2 {
